@@ -1,10 +1,13 @@
 package core
 
 import (
+	"bufio"
 	"encoding/json"
 	"fmt"
+	"math/rand"
 	"os"
 	"path/filepath"
+	"sort"
 	"strings"
 	"time"
 
@@ -26,6 +29,17 @@ type ExhCfg struct {
 	Workers int
 }
 
+// AllCfg is a bounded-exhaustive configuration (NEXT AllNext): TLC enumerates EVERY behaviour of MaxSteps free
+// steps after a scripted prefix; Max > 0 replays a seeded sample that covers as many distinct (action, session)
+// sequences as possible, 0 replays all of them.
+type AllCfg struct {
+	File    string
+	Max     int
+	Timeout time.Duration
+	// EndOnly: compare the authoritative content only at the end of each (short) behaviour, not after every step.
+	EndOnly bool
+}
+
 type Plan struct {
 	Prop       string
 	Sims       []SimCfg
@@ -38,6 +52,7 @@ type Plan struct {
 	Sessions        []string
 	CheckDBEachStep bool
 	MaxMsgs, MaxUID int // configured limits (C17)
+	Alls            []AllCfg
 	// Scripts are cfg files whose Script constant fixes one schedule (witnesses of the known deviations):
 	// each yields one behaviour, replayed before the simulated ones (by shard 0).
 	Scripts []string
@@ -199,6 +214,11 @@ func RunPlan(run *ev.Run, plan Plan, replay string) {
 			ReplayAll(run, plan, traces, f)
 		}
 	}
+	for _, ac := range plan.Alls {
+		if !runAll(run, plan, ac) {
+			return
+		}
+	}
 	seed := ev.Seed()
 	shard, nshards := ev.Shard()
 	seed = seed*1000003 + int64(shard)*7919
@@ -224,4 +244,131 @@ func RunPlan(run *ev.Run, plan Plan, replay string) {
 	run.Add("states", states)
 	run.Add("transitions", transitions)
 	run.Add("states_visited_in_simulation", simStates)
+}
+
+// PrepareAlls runs the bounded-exhaustive TLC enumerations once (parent process) and stores the behaviours in dir.
+func PrepareAlls(alls []AllCfg, dir string) error {
+	for _, ac := range alls {
+		to := ac.Timeout
+		if to == 0 {
+			to = 20 * time.Minute
+		}
+		f, err := os.Create(filepath.Join(dir, ac.File+".ndjson"))
+		if err != nil {
+			return err
+		}
+		n := 0
+		res, err := tlc.Run(tlc.Options{SpecDir: specDir(), Module: "GluonCore", Cfg: filepath.Join(specDir(), "cfg", ac.File),
+			Workers: 8, Timeout: to, KeepOutput: true, HeapGB: 16,
+			OnJSON: func(raw []byte) {
+				n++
+				_, _ = f.Write(raw)
+				_, _ = f.Write([]byte{'\n'})
+			}})
+		_ = f.Close()
+		if err != nil || res.Violated != "" || res.Error != "" || !res.Finished || res.TimedOut || n == 0 {
+			return fmt.Errorf("bounded-exhaustive TLC run %s: err=%v violated=%q error=%q finished=%v behaviours=%d (model-level, not a verdict)\n%s",
+				ac.File, err, res.Violated, res.Error, res.Finished, n, tailStr(res.Output, 1500))
+		}
+		meta, _ := json.Marshal(map[string]interface{}{"behaviours_enumerated": n, "distinct_states": res.Distinct, "generated": res.Generated, "tlc_wall_s": res.Wall.Seconds()})
+		if err := os.WriteFile(filepath.Join(dir, ac.File+".meta.json"), meta, 0o644); err != nil {
+			return err
+		}
+	}
+	return nil
+}
+
+// runAll replays this shard's part of the behaviours PrepareAlls enumerated.
+func runAll(run *ev.Run, plan Plan, ac AllCfg) bool {
+	dir := os.Getenv("VERIF_SHARED_DIR")
+	if dir == "" {
+		// not sharded: enumerate here
+		d, err := os.MkdirTemp("", "verif-alls-")
+		if err != nil {
+			run.Machinery("%v", err)
+			return false
+		}
+		defer os.RemoveAll(d)
+		if err := PrepareAlls([]AllCfg{ac}, d); err != nil {
+			run.Machinery("%v", err)
+			return false
+		}
+		dir = d
+	}
+	fh, err := os.Open(filepath.Join(dir, ac.File+".ndjson"))
+	if err != nil {
+		run.Machinery("behaviours of %s not prepared: %v", ac.File, err)
+		return false
+	}
+	defer fh.Close()
+	var traces []*Trace
+	sc := bufio.NewScanner(fh)
+	sc.Buffer(make([]byte, 1<<20), 1<<26)
+	for sc.Scan() {
+		var t Trace
+		if err := json.Unmarshal(sc.Bytes(), &t); err == nil && len(t.Steps) > 0 {
+			traces = append(traces, &t)
+		}
+	}
+	shard, n := ev.Shard()
+	if shard == 0 {
+		var meta map[string]interface{}
+		if b, err := os.ReadFile(filepath.Join(dir, ac.File+".meta.json")); err == nil && json.Unmarshal(b, &meta) == nil {
+			run.Set("all_"+ac.File, meta)
+			if v, ok := meta["distinct_states"].(float64); ok {
+				run.Add("states", int64(v))
+			}
+			if v, ok := meta["generated"].(float64); ok {
+				run.Add("transitions", int64(v))
+			}
+		}
+	}
+	// deterministic order whatever the TLC worker interleaving was
+	sort.Slice(traces, func(i, j int) bool { return traces[i].Sig() < traces[j].Sig() })
+	pick := traces
+	if ac.Max > 0 && len(traces) > ac.Max {
+		groups := map[string][]*Trace{}
+		var keys []string
+		for _, t := range traces {
+			var b strings.Builder
+			for i := range t.Steps {
+				b.WriteString(t.Steps[i].Act + "/" + t.Steps[i].S + ";")
+			}
+			k := b.String()
+			if _, ok := groups[k]; !ok {
+				keys = append(keys, k)
+			}
+			groups[k] = append(groups[k], t)
+		}
+		rnd := rand.New(rand.NewSource(ev.Seed()*104729 + 17))
+		rnd.Shuffle(len(keys), func(i, j int) { keys[i], keys[j] = keys[j], keys[i] })
+		pick = nil
+		for round := 0; len(pick) < ac.Max; round++ {
+			added := false
+			for _, k := range keys {
+				g := groups[k]
+				if round < len(g) && len(pick) < ac.Max {
+					pick = append(pick, g[(round+int(rnd.Int31n(int32(len(g)))))%len(g)])
+					added = true
+				}
+			}
+			if !added {
+				break
+			}
+		}
+		if shard == 0 {
+			run.Set("all_"+ac.File+"_groups", len(keys))
+		}
+	}
+	var mine []*Trace
+	for i, t := range pick {
+		if i%n == shard {
+			mine = append(mine, t)
+		}
+	}
+	if ac.EndOnly {
+		plan.CheckDBEachStep = false
+	}
+	ReplayAll(run, plan, mine, ac.File)
+	return true
 }
